@@ -129,10 +129,10 @@ const GRID_CASES: u64 = 5 * 3 * 3; // thing x speed x ibs
 const E2_CASES: u64 = 3;
 const E2S_CASES: u64 = 2;
 /// cancellation family: 3 clocks, every subset dropped, x waiting thing {static, streaming, paused static, paused streaming, resume_at}
-const CANCEL_CASES: u64 = 5;
+const CANCEL_CASES: u64 = 6;
 /// a clock whose speed is linked to a modulator: the change of the modulator reaches the clock in the same internal buffer
 const MODSPEED_CASES: u64 = 3;
-const CANCEL_NAMES: [&str; 5] = ["static sound waiting to start", "streaming sound waiting to start", "static sound waiting to start, paused meanwhile", "streaming sound waiting to start, paused meanwhile", "paused static sound waiting to resume (resume_at)"];
+const CANCEL_NAMES: [&str; 6] = ["static sound waiting to start", "streaming sound waiting to start", "static sound waiting to start, paused meanwhile", "streaming sound waiting to start, paused meanwhile", "paused static sound waiting to resume (resume_at)", "playing static sound whose mute (instant volume tween to silence) is scheduled on the clock: never muted once the clock is gone"];
 
 fn hist_depth(tier: Tier) -> usize {
 	tier.pick(5, 6)
@@ -780,6 +780,11 @@ fn e2(tier: Tier, which: u64, ctx: &mut Ctx) {
 				None => false,
 			};
 			flags.lock().unwrap().push(agree);
+			// "stopping resets it to zero": long after stop() returned the clock stands at zero
+			if which == 2 && (handle.ticking() || t.ticks != 0 || t.fraction != 0.0) {
+				flags.lock().unwrap().push(true);
+				flags.lock().unwrap().push(false);
+			}
 			if !agree {
 				reads.lock().unwrap().push((u64::MAX, 0.0));
 				reads.lock().unwrap().push((t.ticks, t.fraction));
@@ -808,7 +813,14 @@ fn e2(tier: Tier, which: u64, ctx: &mut Ctx) {
 			None => (reads.clone(), vec![]),
 		};
 		let reads = &reads;
-		if flags.contains(&false) {
+		// (flags: [agree] or [agree, true, false] when the stopped clock is not at zero)
+		if flags.len() == 3 {
+			fails.push((
+				"stop(): two callbacks after stop() returned the clock is not stopped at zero (ClockHandle::stop() applied in halves, the race recorded under C07) :: E2 with stop()".to_string(),
+				format!("reads during the race {:?}; schedule {}", reads, sched::fmt_schedule(res)),
+			));
+		}
+		if flags.first() == Some(&false) {
 			fails.push((
 				format!("two callbacks after the race, with nothing running concurrently, the handle does not show the time the audio thread's clock has :: E2 {}", if which == 2 { "with stop()" } else { "reader||audio" }),
 				format!("handle.time() = {:?}, the clock as seen by a sound on the audio thread at the end of the callback before = {:?}; reads during the race {:?}; schedule {}", epilogue.first(), epilogue.get(1), reads, sched::fmt_schedule(res)),
@@ -1050,10 +1062,15 @@ fn cancellation(which: u64, ctx: &mut Ctx) {
 							stats.push(st);
 							Box::new(m.play(StreamingSoundData::from_decoder(dec).loop_region(Region::from(..)).start_time(at)).map_err(|_| ()).expect("play"))
 						}
-						_ => {
+						4 => {
 							let mut h = m.play(rig::static_data(sr, rig::dc_frames(4, v)).loop_region(Region::from(..))).expect("play");
 							h.pause(tw(0.0));
 							h.resume_at(at, tw(0.0));
+							Box::new(h)
+						}
+						_ => {
+							let mut h = m.play(rig::static_data(sr, rig::dc_frames(4, v)).loop_region(Region::from(..))).expect("play");
+							h.set_volume(Value::Fixed(Decibels::SILENCE), Tween { start_time: at, duration: Duration::ZERO, easing: Easing::Linear });
 							Box::new(h)
 						}
 					};
@@ -1098,6 +1115,13 @@ fn cancellation(which: u64, ctx: &mut Ctx) {
 						let dropped = subset & (1 << i) != 0;
 						// a clock dropped before it was adopted needs one more callback to go
 						let due = if adopted_first || which >= 2 { 1 } else { 2 };
+						if which == 5 {
+							// a scheduled tween is cancelled by never happening: the sound plays on
+							if st != PlaybackState::Playing {
+								bad = Some(format!("the sound whose mute waits on clock {} is {:?} after callback {} (expected Playing)", i, st, cb));
+							}
+							continue;
+						}
 						if dropped && cb + 1 >= due + 1 && st != PlaybackState::Stopped {
 							bad = Some(format!("the thing waiting on dropped clock {} is {:?} after callback {} (expected Stopped)", i, st, cb));
 						}
@@ -1111,6 +1135,12 @@ fn cancellation(which: u64, ctx: &mut Ctx) {
 						let v = 0.125 * (1 << i) as f32;
 						let dropped = subset & (1 << i) != 0;
 						let bit = ((heard / 0.125).round() as u32 >> i) & 1 == 1;
+						if which == 5 {
+							if dropped && !bit && cb >= 1 {
+								bad = Some(format!("the sound whose mute was scheduled on dropped clock {} is muted (output {} lacks {}) in callback {}", i, heard, v, cb));
+							}
+							continue;
+						}
 						if dropped && bit && (heard / 0.125).fract() == 0.0 {
 							bad = Some(format!("the thing waiting on dropped clock {} is heard (output {} contains {})", i, heard, v));
 						}
@@ -1126,11 +1156,12 @@ fn cancellation(which: u64, ctx: &mut Ctx) {
 						bad = Some(format!("num_clocks() = {} but {} clock handles are alive", n, want));
 					}
 					// the survivors (not paused variants) must have started by now: 4 s > tick 2
-					if which == 0 || which == 1 || which == 4 {
+					if which == 0 || which == 1 || which == 4 || which == 5 {
 						let heard = buf[0];
 						let mut want_sum = 0.0f32;
 						for i in 0..3 {
-							if subset & (1 << i) == 0 {
+							// (the mute variant: what is still heard are the sounds on the DROPPED clocks)
+							if (subset & (1 << i) == 0) != (which == 5) {
 								want_sum += 0.125 * (1 << i) as f32;
 							}
 						}
